@@ -8,6 +8,7 @@ import PG.Props.C02
 import PG.Props.C06
 import PG.Lemmas.Utf8L
 import PG.Lemmas.SizeL
+import PG.Lemmas.Utf8Spec
 namespace PG
 
 theorem mem_okRecs {items : List Item} {r : Record} : r ∈ okRecs items ↔ Item.ok r ∈ items := by
